@@ -57,6 +57,21 @@ type Layout struct {
 	VCodec string `json:"vcodec,omitempty"`
 	// ASCodecs: @codecs is written on the AdaptationSet elements of the VoD MPD instead of on their Representations
 	ASCodecs bool `json:"as_codecs,omitempty"`
+	// A2SegFrames (with Audio): a second audio adaptation set "A49" in the other codec (AC-3 next to AAC and vice versa, i.e.
+	// another frame duration), with this many frames per VoD segment
+	A2SegFrames []int `json:"aseg2,omitempty"`
+	// V2Timescale/V2FrameDur (V2Extra == 0): a second video representation "V600" in an adaptation set of its own, with the same
+	// frames on another clock of the same frame rate (e.g. 90000/3600 next to 1000/40): same duration, other timescale
+	V2Timescale int `json:"v2ts,omitempty"`
+	V2FrameDur  int `json:"v2fd,omitempty"`
+}
+
+// A2 returns codec kind and frame duration of the second audio track.
+func (l Layout) A2() (string, int) {
+	if l.Audio == "ac3" {
+		return "aac", 1024
+	}
+	return "ac3", 1536
 }
 
 type Clock struct{ Timescale, FrameDur int }
@@ -131,6 +146,7 @@ type Opts struct {
 	Forms      []string
 	AudioDelta []int // allowed differences (frames) between audio loop and the nearest-to-video loop; nil = {0}
 	Clocks     []Clock
+	Audio2     bool // allow a second audio adaptation set in the other codec
 	Uniform    bool // only constant segment durations
 	VStart     bool // allow layouts whose video track starts at a decode time other than 0
 }
@@ -255,6 +271,25 @@ func Gen(t *rapid.T, o Opts) Layout {
 			}
 		default:
 			l.ASegFrames = []int{frames}
+		}
+	}
+	if l.Audio != "" && o.Audio2 && rapid.Bool().Draw(t, "audio2") {
+		_, fd2 := l.A2()
+		frames2 := (l.LoopTicks()*48000/l.VTimescale + fd2/2) / fd2
+		if frames2 < 2 {
+			frames2 = 2
+		}
+		acc, prev := 0, 0
+		for i, vf := range l.VSegFrames {
+			acc += vf * l.VFrameDur
+			e := (acc*48000/l.VTimescale + fd2/2) / fd2
+			if i == n-1 || e > frames2 {
+				e = frames2
+			}
+			if e-prev > 0 {
+				l.A2SegFrames = append(l.A2SegFrames, e-prev)
+				prev = e
+			}
 		}
 	}
 	if o.AllowText && rapid.IntRange(0, 2).Draw(t, "text") == 0 {
@@ -422,7 +457,7 @@ func (l Layout) Materialize(root string) (string, error) {
 	}
 	tmp := dir + ".tmp"
 	_ = os.RemoveAll(tmp)
-	for _, d := range []string{"V300", "A48", "T1", "thumbs"} {
+	for _, d := range []string{"V300", "A48", "A49", "T1", "thumbs"} {
 		if err := os.MkdirAll(filepath.Join(tmp, d), 0o755); err != nil {
 			return "", err
 		}
@@ -469,11 +504,19 @@ func (l Layout) Materialize(root string) (string, error) {
 		fmt.Fprintf(&vTimeline, "<S t=\"%d\" d=\"%d\"/>", t, nf*l.VFrameDur)
 		t += nf * l.VFrameDur
 	}
-	if l.V2Extra != 0 {
+	var v2Timeline strings.Builder
+	if l.V2Extra != 0 || l.V2Timescale != 0 {
 		if err := os.MkdirAll(filepath.Join(tmp, "V600"), 0o755); err != nil {
 			return "", err
 		}
-		if err := os.WriteFile(filepath.Join(tmp, "V600/init.mp4"), vinit, 0o644); err != nil {
+		fd2, v2init := l.VFrameDur, vinit
+		if l.V2Timescale != 0 {
+			fd2 = l.V2FrameDur
+			if v2init, err = initWithTimescale(vp.init, uint32(l.V2Timescale)); err != nil {
+				return "", err
+			}
+		}
+		if err := os.WriteFile(filepath.Join(tmp, "V600/init.mp4"), v2init, 0o644); err != nil {
 			return "", err
 		}
 		fi, t2 := 0, 0
@@ -484,7 +527,7 @@ func (l Layout) Materialize(root string) (string, error) {
 			var fss []mp4.FullSample
 			for k := 0; k < nf; k++ {
 				src := vp.samples[fi%len(vp.samples)]
-				fs := mp4.FullSample{Sample: mp4.Sample{Flags: src.Flags, Dur: uint32(l.VFrameDur), Size: src.Size}, DecodeTime: uint64(t2 + k*l.VFrameDur), Data: src.Data}
+				fs := mp4.FullSample{Sample: mp4.Sample{Flags: src.Flags, Dur: uint32(fd2), Size: src.Size}, DecodeTime: uint64(t2 + k*fd2), Data: src.Data}
 				if k == 0 {
 					fs.Flags = mp4.SyncSampleFlags
 				}
@@ -494,7 +537,8 @@ func (l Layout) Materialize(root string) (string, error) {
 			if err := writeSeg(filepath.Join(tmp, "V600", segName(i, t2)), vp.trackID, uint32(i+1), [][]mp4.FullSample{fss}); err != nil {
 				return "", err
 			}
-			t2 += nf * l.VFrameDur
+			fmt.Fprintf(&v2Timeline, "<S t=\"%d\" d=\"%d\"/>", t2, nf*fd2)
+			t2 += nf * fd2
 		}
 	}
 	// audio
@@ -535,6 +579,30 @@ func (l Layout) Materialize(root string) (string, error) {
 			at += nf * fd
 		}
 	}
+	var a2Timeline strings.Builder
+	if l.Audio != "" && len(l.A2SegFrames) > 0 {
+		kind2, fd2 := l.A2()
+		ap := pools[kind2]
+		if err := os.WriteFile(filepath.Join(tmp, "A49/init.mp4"), ap.init, 0o644); err != nil {
+			return "", err
+		}
+		fi, at := 0, 0
+		for i, nf := range l.A2SegFrames {
+			var fss []mp4.FullSample
+			for k := 0; k < nf; k++ {
+				src := ap.samples[fi%len(ap.samples)]
+				data := make([]byte, len(src.Data))
+				copy(data, src.Data)
+				fss = append(fss, mp4.FullSample{Sample: mp4.Sample{Flags: mp4.SyncSampleFlags, Dur: uint32(fd2), Size: uint32(len(data))}, DecodeTime: uint64(at + k*fd2), Data: data})
+				fi++
+			}
+			if err := writeSeg(filepath.Join(tmp, "A49", segName(i, at)), ap.trackID, uint32(i+1), [][]mp4.FullSample{fss}); err != nil {
+				return "", err
+			}
+			fmt.Fprintf(&a2Timeline, "<S t=\"%d\" d=\"%d\"/>", at, nf*fd2)
+			at += nf * fd2
+		}
+	}
 	// text (stpp, timescale 1000)
 	if l.Text {
 		tp := pools["text"]
@@ -566,17 +634,17 @@ func (l Layout) Materialize(root string) (string, error) {
 			}
 		}
 	}
-	if err := os.WriteFile(filepath.Join(tmp, "Manifest.mpd"), []byte(l.mpd(vTimeline.String(), aTimeline.String(), tTimeline.String())), 0o644); err != nil {
+	if err := os.WriteFile(filepath.Join(tmp, "Manifest.mpd"), []byte(l.mpd(vTimeline.String(), aTimeline.String(), tTimeline.String(), a2Timeline.String(), v2Timeline.String())), 0o644); err != nil {
 		return "", err
 	}
 	if l.ShortMPD && l.Form == "number" && len(l.VSegFrames) >= 2 {
-		short := strings.ReplaceAll(l.mpd("", "", ""), `<SegmentTemplate startNumber="`+fmt.Sprint(l.StartNumber)+`"`,
+		short := strings.ReplaceAll(l.mpd("", "", "", "", ""), `<SegmentTemplate startNumber="`+fmt.Sprint(l.StartNumber)+`"`,
 			fmt.Sprintf(`<SegmentTemplate startNumber="%d" endNumber="%d"`, l.StartNumber, l.StartNumber+len(l.VSegFrames)-2))
 		if err := os.WriteFile(filepath.Join(tmp, "Manifest_short.mpd"), []byte(short), 0o644); err != nil {
 			return "", err
 		}
 	}
-	for _, d := range []string{"A48", "T1", "thumbs", "V600"} {
+	for _, d := range []string{"A48", "A49", "T1", "thumbs", "V600"} {
 		ents, _ := os.ReadDir(filepath.Join(tmp, d))
 		if len(ents) == 0 {
 			_ = os.Remove(filepath.Join(tmp, d))
@@ -595,7 +663,7 @@ func (l Layout) vcodec() string {
 	return "avc1.64001e"
 }
 
-func (l Layout) mpd(vTL, aTL, tTL string) string {
+func (l Layout) mpd(vTL, aTL, tTL, a2TL, v2TL string) string {
 	loopMS := l.LoopTicks() * 1000 / l.VTimescale
 	dur := fmt.Sprintf("PT%d.%03dS", loopMS/1000, loopMS%1000)
 	var b strings.Builder
@@ -630,11 +698,34 @@ func (l Layout) mpd(vTL, aTL, tTL string) string {
     </AdaptationSet>
 `, tmpl(48000, l.TotalAFrames()*l.AFrameDur()/len(l.ASegFrames), aTL), codec)
 	}
+	if l.Audio != "" && len(l.A2SegFrames) > 0 {
+		kind2, fd2 := l.A2()
+		codec2 := "mp4a.40.2"
+		if kind2 == "ac3" {
+			codec2 = "ac-3"
+		}
+		tot := 0
+		for _, f := range l.A2SegFrames {
+			tot += f
+		}
+		fmt.Fprintf(&b, `    <AdaptationSet contentType="audio" mimeType="audio/mp4" lang="sv" segmentAlignment="true" startWithSAP="1">
+      %s
+      <Representation id="A49" codecs="%s" bandwidth="96000" audioSamplingRate="48000"/>
+    </AdaptationSet>
+`, tmpl(48000, tot*fd2/len(l.A2SegFrames), a2TL), codec2)
+	}
 	fmt.Fprintf(&b, `    <AdaptationSet contentType="video" mimeType="video/mp4" segmentAlignment="true" startWithSAP="1">
       %s
       <Representation id="V300" codecs="%s" bandwidth="300000" width="640" height="360"/>%s
     </AdaptationSet>
 `, tmpl(l.VTimescale, l.LoopTicks()/n, vTL), l.vcodec(), map[bool]string{true: "\n      <Representation id=\"V600\" codecs=\"" + l.vcodec() + "\" bandwidth=\"600000\" width=\"640\" height=\"360\"/>", false: ""}[l.V2Extra != 0])
+	if l.V2Extra == 0 && l.V2Timescale != 0 {
+		fmt.Fprintf(&b, `    <AdaptationSet contentType="video" mimeType="video/mp4" segmentAlignment="true" startWithSAP="1">
+      %s
+      <Representation id="V600" codecs="%s" bandwidth="600000" width="640" height="360"/>
+    </AdaptationSet>
+`, tmpl(l.V2Timescale, l.TotalVFrames()*l.V2FrameDur/n, v2TL), l.vcodec())
+	}
 	if l.Text {
 		fmt.Fprintf(&b, `    <AdaptationSet contentType="text" mimeType="application/mp4" lang="en" segmentAlignment="true">
       <Role schemeIdUri="urn:mpeg:dash:role:2011" value="subtitle"/>
